@@ -244,7 +244,8 @@ def h_tworun() -> bool:
         x = pb.PEL(pb.SRC(flags=1, callouts=pb.callouts_subsection([pb.callout(prio=a, mr=pb.mru(((1, 2),)))])))
         y = pb.PEL(pb.SRC(flags=1, callouts=pb.callouts_subsection([pb.callout(prio=b), pb.callout(prio=0x4C, pce=pb.pce_identity())])))
     elif case in ("compid-HO", "compid-OH"):
-        c = sym_int("c", 0, 0xFFFF)
+        cb = sym_bytes("c", 2, 0x21, 0x7E)          # both bytes printable: PHYP shows such an id as two characters
+        c = from_be([cb[0], cb[1]])
         first, second = (ord("H"), ord("O")) if case == "compid-HO" else (ord("O"), ord("H"))
         y = pb.PEL(pb.MT(comp=c), ph=dict(creator=first, comp=c), uh=dict(comp=c))
         x = pb.PEL(pb.MT(comp=c), ph=dict(creator=second, comp=c), uh=dict(comp=c))
